@@ -14,7 +14,7 @@ from pathlib import Path
 
 VERIF = Path(__file__).resolve().parents[1]
 RELATED = {"C01": ["C01", "C04", "C19"], "C02": ["C02"], "C03": ["C03", "C04"], "C04": ["C04", "C09"], "C05": ["C05", "C06"], "C06": ["C06"],
-           "C07": ["C07"], "C08": ["C08", "C19", "C01"], "C09": ["C09", "C01", "C07"], "C10": ["C10"], "C11": ["C11"], "C12": ["C12", "C13"],
+           "C07": ["C07"], "C08": ["C08", "C19", "C01"], "C09": ["C09", "C04"], "C10": ["C10", "C18"], "C11": ["C11", "C13"], "C12": ["C12", "C13"],
            "C13": ["C13", "C11"], "C14": ["C14"], "C15": ["C15", "C01", "C10"], "C16": ["C16", "C04"], "C17": ["C17"], "C18": ["C18"],
            "C19": ["C19"], "C20": ["C20"]}
 
